@@ -224,3 +224,221 @@ theorem matchTracks_unfold (sqrt : α → α) (big : α) (mode : Mode) (p : PNor
 
 end front
 end TV.DTW
+
+namespace TV.DTW
+
+/-- a coupling from `(i, j)` down to `(0,0)` has between `max i j + 1` and `i + j + 1` links -/
+theorem backPath_length : ∀ (S : List (Nat × Nat)) (i j : Nat), BackPath S → S.head? = some (i, j) →
+    i + 1 ≤ S.length ∧ j + 1 ≤ S.length ∧ S.length ≤ i + j + 1
+  | [], _, _, h, _ => by simp [BackPath] at h
+  | [s], i, j, h, hh => by
+    simp only [BackPath] at h
+    simp only [List.head?_cons, Option.some.injEq] at hh
+    subst h
+    cases hh
+    simp
+  | a :: b :: rest, i, j, h, hh => by
+    simp only [BackPath] at h
+    simp only [List.head?_cons, Option.some.injEq] at hh
+    subst hh
+    obtain ⟨b1, b2⟩ := b
+    have ih := backPath_length ((b1, b2) :: rest) b1 b2 h.2 rfl
+    have hst := h.1
+    unfold IsStep at hst
+    simp only at hst
+    simp only [List.length_cons] at ih ⊢
+    omega
+
+section history
+variable {α : Type} [Add α] [Sub α] [Mul α] [Div α] [LinearOrder α] [OfNat α 0] [OfNat α 1]
+
+omit [Div α] in
+/-- the plain variant on a track1 that carries earlier feature rows: same result as on a track1 without them -/
+theorem warpOn_history (sqrt : α → α) (big : α) (p : PArg) (dim : Nat) (t1 t2 : List (Pt α)) (rows0 : List (Row α))
+    (hl : rows0.length = t1.length) (h1 : 0 < t1.length) (h2 : 0 < t2.length) :
+    warpOn sqrt big false p dim { pts := t1, rows := rows0 } t2 = warpOn sqrt big false p dim (TrackObj.fresh t1) t2 := by
+  unfold warpOn
+  cases p2weight (α := α) p with
+  | error e => rfl
+  | ok w =>
+    simp only [bind, Except.bind, TrackObj.fresh, Bool.false_eq_true, if_false]
+    rw [dtwOn_eq_dtw sqrt w dim rows0 t1 t2 hl h1 h2, dtwOn_eq_dtw sqrt w dim (freshRows t1) t1 t2 (by simp [freshRows]) h1 h2]
+
+omit [Div α] in
+/-- `match` in the modes DTW and FRECHET (and with any constant that is not a matching mode) on a track1 that carries
+earlier feature rows: same result as on a track1 without them -/
+theorem matchCall_history (sqrt : α → α) (big : α) (mode : Nat) (hm : mode ≠ 3) (p : PArg) (dim : Nat)
+    (t1 t2 : List (Pt α)) (rows0 : List (Row α)) (hl : rows0.length = t1.length) (h1 : 0 < t1.length) (h2 : 0 < t2.length) :
+    matchCall sqrt big mode p dim { pts := t1, rows := rows0 } t2 = matchCall sqrt big mode p dim (TrackObj.fresh t1) t2 := by
+  unfold matchCall
+  by_cases m1 : mode = 1
+  · simp [m1]
+  · by_cases m4 : mode = 4
+    · simp only [m1, m4, if_true, if_false]
+      exact warpOn_history sqrt big _ dim t1 t2 rows0 hl h1 h2
+    · by_cases m2 : mode = 2
+      · simp only [m1, m4, m2, if_true, if_false]
+        exact warpOn_history sqrt big _ dim t1 t2 rows0 hl h1 h2
+      · simp [m1, m4, m2, hm]
+
+/-- `compare` in the modes DTW and FRECHET on a track1 that carries earlier feature rows: same value -/
+theorem compareCall_history (sqrt : α → α) (root : Nat → α → α) (ofNat : Nat → α) (big : α) (mode : Nat) (hm : mode ≠ 107)
+    (p : PArg) (dim : Nat) (t1 t2 : List (Pt α)) (rows0 : List (Row α)) (hl : rows0.length = t1.length)
+    (h1 : 0 < t1.length) (h2 : 0 < t2.length) :
+    compareCall sqrt root ofNat big mode p dim { pts := t1, rows := rows0 } t2
+      = compareCall sqrt root ofNat big mode p dim (TrackObj.fresh t1) t2 := by
+  unfold compareCall
+  split
+  · rfl
+  · by_cases m8 : mode = 108
+    · simp only [m8, if_true]
+      unfold warpCompare
+      rw [warpOn_history sqrt big _ dim t1 t2 rows0 hl h1 h2]
+    · by_cases m6 : mode = 106
+      · rw [if_neg m8, if_pos m6, if_neg m8, if_pos m6]
+        unfold warpCompare
+        rw [warpOn_history sqrt big _ dim t1 t2 rows0 hl h1 h2]
+      · simp [m8, m6, hm]
+
+omit [Div α] in
+/-- the track that the plain variant returns has one feature row per observation of track1 -/
+theorem warpOn_rows_length (sqrt : α → α) (big : α) (p : PArg) (dim : Nat) (t1 t2 : List (Pt α))
+    (h1 : 0 < t1.length) (h2 : 0 < t2.length) (o : Out α)
+    (h : warpOn sqrt big false p dim (TrackObj.fresh t1) t2 = .ok o) : o.rows.length = t1.length := by
+  unfold warpOn at h
+  cases hp : p2weight (α := α) p with
+  | error e => rw [hp] at h; cases h
+  | ok w =>
+    rw [hp] at h
+    obtain ⟨rows, he, hlen, _⟩ := dtw_spec sqrt w dim t1 t2 h1 h2
+    have he' : dtwOn sqrt w dim (freshRows t1) t1 t2 = some _ := he
+    have hne : t1.isEmpty = false := by cases t1 with | nil => simp at h1 | cons _ _ => rfl
+    simp only [bind, Except.bind, TrackObj.fresh, Bool.false_eq_true, if_false, hne, he'] at h
+    cases h
+    exact hlen
+
+omit [Div α] in
+theorem matchCall_rows_length (sqrt : α → α) (big : α) (mode : Nat) (hm : mode ≠ 3) (p : PArg) (dim : Nat)
+    (t1 t2 : List (Pt α)) (h1 : 0 < t1.length) (h2 : 0 < t2.length) (o : Out α)
+    (h : matchCall sqrt big mode p dim (TrackObj.fresh t1) t2 = .ok o) : o.rows.length = t1.length := by
+  unfold matchCall at h
+  by_cases m1 : mode = 1
+  · simp [m1] at h
+  · by_cases m4 : mode = 4
+    · simp only [m1, m4, if_true, if_false] at h
+      exact warpOn_rows_length sqrt big _ dim t1 t2 h1 h2 o h
+    · by_cases m2 : mode = 2
+      · simp only [m1, m4, m2, if_true, if_false] at h
+        exact warpOn_rows_length sqrt big _ dim t1 t2 h1 h2 o h
+      · simp [m1, m4, m2, hm] at h
+
+end history
+end TV.DTW
+
+/-! ### reading the links back from the returned track -/
+namespace TV.DTW
+
+/-- the links as a user reads them from the returned track: for observation `j = 0, 1, …` of track1 in turn, the pairs
+`(i, j)` for the `i` of its `pair` list in order (`[(i, j) for j, l in enumerate(pairs) for i in l]`) -/
+def readBack {α : Type} (rows : List (Row α)) : List (Nat × Nat) :=
+  (List.range rows.length).flatMap (fun j => (((rows[j]?).map (·.pair)).getD []).map (fun i => (i, j)))
+
+theorem flatMap_congr' {β γ : Type} : ∀ (l : List β) (f g : β → List γ), (∀ a ∈ l, f a = g a) → l.flatMap f = l.flatMap g
+  | [], _, _, _ => rfl
+  | a :: l, f, g, h => by
+    simp only [List.flatMap_cons]
+    rw [h a List.mem_cons_self, flatMap_congr' l f g (fun b hb => h b (List.mem_cons_of_mem _ hb))]
+
+/-- a list sorted by second component with second components `≤ n` splits at `n` -/
+theorem filter_split (n : Nat) : ∀ (L : List (Nat × Nat)), L.Pairwise (fun a b => a.2 ≤ b.2) → (∀ s ∈ L, s.2 ≤ n) →
+    L = L.filter (fun s => decide (s.2 < n)) ++ L.filter (fun s => s.2 == n)
+  | [], _, _ => by simp
+  | a :: L, hp, hb => by
+    have hpa := (List.pairwise_cons.mp hp)
+    have ih := filter_split n L hpa.2 (fun s hs => hb s (List.mem_cons_of_mem _ hs))
+    by_cases ha : a.2 < n
+    · have hne : (a.2 == n) = false := by simp; omega
+      simp only [List.filter_cons, ha, decide_true, if_true, hne, Bool.false_eq_true, if_false, List.cons_append]
+      rw [← ih]
+    · have han : a.2 = n := by have := hb a List.mem_cons_self; omega
+      have hall : ∀ s ∈ L, s.2 = n := by
+        intro s hs
+        have h1 := hpa.1 s hs
+        have h2 := hb s (List.mem_cons_of_mem _ hs)
+        omega
+      have hf1 : L.filter (fun s => decide (s.2 < n)) = [] := by
+        apply List.filter_eq_nil_iff.mpr
+        intro s hs; have := hall s hs; simp; omega
+      have hf2 : L.filter (fun s => s.2 == n) = L := by
+        apply List.filter_eq_self.mpr
+        intro s hs; simp [hall s hs]
+      have hd : decide (a.2 < n) = false := by simp; omega
+      have he : (a.2 == n) = true := by simp [han]
+      simp only [List.filter_cons, hd, he, Bool.false_eq_true, if_false, if_true, hf1, hf2, List.nil_append]
+
+/-- grouping a list sorted by second component by the values `0, 1, …, n-1` of that component gives the list back -/
+theorem flatMap_filter_sorted : ∀ (n : Nat) (L : List (Nat × Nat)), L.Pairwise (fun a b => a.2 ≤ b.2) → (∀ s ∈ L, s.2 < n) →
+    (List.range n).flatMap (fun j => L.filter (fun s => s.2 == j)) = L
+  | 0, L, _, hb => by
+    cases L with
+    | nil => simp
+    | cons a L => have := hb a List.mem_cons_self; omega
+  | n+1, L, hp, hb => by
+    have hsplit := filter_split n L hp (fun s hs => by have := hb s hs; omega)
+    have ih := flatMap_filter_sorted n (L.filter (fun s => decide (s.2 < n))) (hp.filter _)
+      (fun s hs => by simpa using (List.mem_filter.mp hs).2)
+    rw [List.range_succ, List.flatMap_append]
+    simp only [List.flatMap_cons, List.flatMap_nil, List.append_nil]
+    have hcongr : (List.range n).flatMap (fun j => L.filter (fun s => s.2 == j))
+        = (List.range n).flatMap (fun j => (L.filter (fun s => decide (s.2 < n))).filter (fun s => s.2 == j)) := by
+      apply flatMap_congr'
+      intro j hj
+      have hjn : j < n := List.mem_range.mp hj
+      rw [List.filter_filter]
+      apply List.filter_congr
+      intro s _
+      by_cases h : s.2 = j
+      · simp [h, hjn]
+      · simp [h]
+    rw [hcongr, ih]
+    exact hsplit.symm
+
+/-- along a coupling (last pair first) the track1 index never increases -/
+theorem backPath_sorted : ∀ (S : List (Nat × Nat)), BackPath S → S.Pairwise (fun a b => b.2 ≤ a.2)
+  | [], h => by simp [BackPath] at h
+  | [s], _ => by simp
+  | a :: b :: rest, h => by
+    simp only [BackPath] at h
+    have ih := backPath_sorted (b :: rest) h.2
+    have hb := backPath_bounds (b :: rest) b.1 b.2 h.2 rfl
+    have hst := h.1
+    unfold IsStep at hst
+    refine List.pairwise_cons.mpr ⟨?_, ih⟩
+    intro s hs
+    have := (hb s hs).2
+    omega
+
+/-- **what a user reads back**: when the `pair` list of every observation `j` holds the partners that the coupling `S`
+gives it, in coupling order, reading the links observation by observation gives exactly the coupling, first pair first;
+in particular the number of stored links is `S.length` -/
+theorem readBack_eq {α : Type} (S : List (Nat × Nat)) (n1 n2 : Nat) (rows : List (Row α))
+    (hbp : BackPath S) (hhd : S.head? = some (n2 - 1, n1 - 1)) (h1 : 0 < n1) (hl : rows.length = n1)
+    (hp : ∀ j, j < n1 → (rows[j]?).map (·.pair) = some (partners S.reverse j)) :
+    readBack rows = S.reverse := by
+  have hb := backPath_bounds _ _ _ hbp hhd
+  have hsorted : S.reverse.Pairwise (fun a b => a.2 ≤ b.2) := List.pairwise_reverse.mpr (backPath_sorted S hbp)
+  have hlt : ∀ s ∈ S.reverse, s.2 < n1 := fun s hs => by have := (hb s (List.mem_reverse.mp hs)).2; omega
+  rw [← flatMap_filter_sorted n1 S.reverse hsorted hlt]
+  unfold readBack
+  rw [hl]
+  apply flatMap_congr'
+  intro j hj
+  rw [hp j (List.mem_range.mp hj)]
+  simp only [Option.getD_some, partners, List.map_map]
+  conv => rhs; rw [← List.map_id (List.filter (fun s => s.2 == j) S.reverse)]
+  apply List.map_congr_left
+  intro s hs
+  have : s.2 = j := by simpa using (List.mem_filter.mp hs).2
+  simp [← this]
+
+end TV.DTW
